@@ -12,12 +12,31 @@ from ..translate import c04 as tr
 META = {
     "property_id": "C04",
     "design_ref": "DESIGN.md section 5, C04",
-    "technique": "Coq proof (token-level codecs print_f / parse_f of every writable format modelled from export_*/import_*, "
-                 "round trip parse_f (print_f m) = vocab_f m by induction over the vertex/element/attribute lists, interop against "
-                 "an independent reference codec written from the format specifications) + translator-regenerated keywords, "
-                 "arities, offsets, slices, tables + kernel-checked correspondence batches on files written/read by mouette",
-    "level_text": "filled in below",
-    "level_note": "filled in below",
+    "technique": "Coq proof (token-level codecs print_f / parse_f of every writable format modelled from export_*/import_*; round trip "
+                 "parse_f (print_f m) = vocab_f m by induction over the vertex / element / attribute lists; interoperability against "
+                 "independent reference codecs written from the format descriptions) + translator-regenerated keywords, arities, index "
+                 "offsets, slices, chunk names, type tables, struct layout + kernel-checked correspondence batches on the files mouette "
+                 "writes and reads (incl. an edited / malformed stream and third-party files) + independent Python readers/writers as oracle",
+    "level_text": "Machine-checked Coq theorems, for ALL meshes (unbounded vertex/element/attribute lists), about an executable model of "
+                  "mouette/mesh/io/*.py and the save/load plumbing of mesh.py whose constants, tables and decision expressions are regenerated "
+                  "from /repo on every run. FULL: round trip parse_f(print_f m) = vocab_f m for xyz, obj (both edge-export switches, "
+                  "ignore_elements), off (faces of >=3 vertices), tet, Medit .mesh (per arity class: triangles, quads, hexahedra, tetrahedra; "
+                  "hard-edge-only export), geogram_ascii (vertices, edges, faces of any arity via facet_ptr, tetrahedra, cell adjacency, "
+                  "attributes of the five types on the seven containers: name, type, arity and, read densely, values); interoperability both "
+                  "ways with independent reference codecs (free-form token-stream readers) for xyz, obj, off, tet, Medit; kinds a format cannot "
+                  "express are absent; the loaded class is the one the content implies. PARTIAL: STL (binary32 triangle soup of triangle "
+                  "meshes through a reader of the binary layout; the importer is the third-party stl_reader, only compared per run; quads are "
+                  "written as two triangles). REFUTED (known finding): hexahedra cannot be saved to geogram_ascii. Interoperability of "
+                  "geogram_ascii with an independent count-driven reader/writer and with a file written by geogram itself is tested per run "
+                  "(kernel-checked against the model's parser), not proved. Bit-exactness of text coordinates rests on the hypothesis "
+                  "float('{}'.format(x)) == x, tested on every run (10^5 doubles in the thorough tier).",
+    "level_note": "Trusted: Coq kernel + vm_compute; the fail-closed translator vf/translate/c04.py (its output is exercised by the "
+                  "correspondence); the harness (generators, tokeniser, driver canonicalisation: floats as bit patterns, a float text is "
+                  "identified with the double it denotes); CPython/numpy float and complex text round trip (section hypotheses rf_pf, rc_pc); "
+                  "struct.pack native 'f' = IEEE rounding to binary32 (coordinates beyond the binary32 range become +-inf in STL files); "
+                  "stl_reader; RawMeshData.prepare (C02's subject) builds the meshes that are saved; OBJ v/vt/vn forms, uv/normals attributes, "
+                  "xyz normals, ply and ASCII STL import are outside the model. A scalar attribute value equal to the type default (-0.0, "
+                  "0j with signed zeros) reads back as the default.",
 }
 
 HEADER = """From Coq Require Import ZArith Bool String.
@@ -1077,7 +1096,7 @@ def shrink_mesh(mesh, fails):
 # ---------------------------------------------------------------------- the check
 def run(ctx):
     quick = ctx.tier == "quick"
-    n_mesh = 40 if quick else 700
+    n_mesh = 40 if quick else 400
     ctx.rule = ("meshes built by mouette itself (RawMeshData.prepare) from generated vertex/edge/face/cell lists: point clouds, "
                 "polylines, triangle / quad / mixed / polygon surfaces, surfaces with explicit edges, tetrahedral, hexahedral and mixed "
                 "volumes, the empty mesh; 0-12 vertices; coordinates small integers, dyadic, special doubles (-0.0, subnormal, 1e308, 1e-310) "
@@ -1275,7 +1294,7 @@ def run(ctx):
 
     # ---- variant / malformed stream: edited copies of the files, mouette's importer against the model's parser
     lv_jobs, lv_meta = [], []
-    nvar = 1 if quick else 3
+    nvar = 1 if quick else 2
     for idx, (job, r) in enumerate(zip(jobs, res)):
         fmt = job["fmt"]
         if fmt == "stl" or "file" not in r or not printable(r["file"]["text"].replace("\n", " ")):
